@@ -38,7 +38,7 @@ class C18(Prop):
             'content and no "layers" key); after load into fresh preconditioners every layer\'s factor-gathering rank holds the saved factors '
             '(and second-order data when requested); the continuation is bit-identical to the uninterrupted twin when the restored second-order '
             'data coincides with the live one (rule of C09), else to nothing stronger than no protocol violation; all ranks take part in the same '
-            'collectives (simulator monitors). Non-trivial: >= 2 ranks and >= 2 layers; model >= 2 for the restore-placement part.')
+            'collectives (simulator monitors); loading the checkpoint back into the SAME live preconditioners after training on (weights put back) continues bit-identically to resuming in fresh ones. Non-trivial: >= 2 ranks and >= 2 layers; model >= 2 for the restore-placement part.')
     assumptions = ['DeepSpeed/Megatron doubles; each pipeline stage is an independent stack with its own data (no inter-stage activations are needed for the property)',
                    'in directory mode the harness places a barrier between save and load (a checkpoint is read by a later job)']
     examples = {'quick': 45, 'thorough': 300}
@@ -139,6 +139,24 @@ class C18(Prop):
                                 d = ((g - got[t]['after'][n]).norm() / max(g.norm().item(), 1e-300)).item()
                                 key = 'resume-diverges-model-parallel' if mp >= 2 else 'resume-diverges'
                                 return violation(f'{where}: rank {rank} step {t}: gradient {n} after resuming differs from the uninterrupted run by {d:.3e} relative', key, labels=labels)
+            # rolling back IN PLACE (same preconditioner objects, weights put back) must behave like resuming in fresh ones
+            if c < T:
+                rb = gptrun.run_gpt(run_case, [train(t) for t in range(c)] + [{'op': 'snapshot'}] + [train(t) for t in range(c, T)]
+                                    + [{'op': 'rollback', 'compute_inverses': ci}] + [train(t) for t in range(c, T)], case['schedule'], case['flip'])
+                if rb.timed_out:
+                    raise RuntimeError('simulation timed out (harness)')
+                if not rb.ok:
+                    v = rb.violations[0]
+                    return violation(f'{where}: rollback into the live preconditioners: {v}', 'protocol:' + v.kind, labels=labels)
+                for rank in range(W):
+                    second = [r for r in rb.results[rank] if r['op'] == 'train'][T:]
+                    fresh = [r for r in res.results[rank] if r['op'] == 'train'][c:]
+                    for j, (a, b) in enumerate(zip(second, fresh)):
+                        for n, g in b['after'].items():
+                            if not torch.equal(g, a['after'][n]):
+                                d = ((g - a['after'][n]).norm() / max(g.norm().item(), 1e-300)).item()
+                                return violation(f'{where}: rank {rank} step {c + j}: after rolling back to this boundary in place the gradient {n} differs from resuming '
+                                                 f'in fresh preconditioners by {d:.3e} relative', 'rollback-diverges', labels=labels)
             # final state on every rank must again contain every layer
             if not case['dir_mode']:
                 for rank in range(W):
